@@ -105,6 +105,7 @@ fn gen_loop(t: &mut Tape, cfg: &LoopCfg, k: usize, inner: Option<usize>) -> Loop
       break;
     }
   }
+  let small_range = [start, bound, stride].iter().all(|v| (*v as i64).abs() < (1 << 20));
   let second_iv = if t.bool(1, 3) { Some([1, 2, -1, 5, -3][t.choose(5)]) } else { None };
   let j0 = INTERESTING[t.choose(INTERESTING.len())];
   let acc0 = [0, 1, -1, 7, 2147483647, -2147483648][t.weighted(&[5, 3, 2, 2, 1, 1])];
@@ -115,7 +116,7 @@ fn gen_loop(t: &mut Tape, cfg: &LoopCfg, k: usize, inner: Option<usize>) -> Loop
     // an effect inside an argument of the recursive call
     format!("if {{\n        let _ = Process.println(\"tick\");\n        {}\n      }} {{ {a} }} else {{ {b} }}", ["true", "false", "i % 2 == 0", "p"][t.choose(4)])
   };
-  let update = match t.weighted(&[4, if cfg.derived_iv { 4 } else { 0 }, 3, 2, 2, if cfg.possibly_zero_divisor { 3 } else { 0 }, 2, if inner.is_some() { 4 } else { 0 }, 2, 2, if cfg.derived_iv { 4 } else { 0 }, 2, if effects { 3 } else { 0 }, 4, if cfg.compare_after_add { 3 } else { 0 }]) {
+  let update = match t.weighted(&[4, if cfg.derived_iv { 4 } else { 0 }, 3, 2, 2, if cfg.possibly_zero_divisor { 3 } else { 0 }, 2, if inner.is_some() { 4 } else { 0 }, 2, 2, if cfg.derived_iv { 4 } else { 0 }, 2, if effects { 3 } else { 0 }, 4, if cfg.compare_after_add { 3 } else { 0 }, if small_range { 4 } else { 0 }]) {
     0 => "acc + i".to_string(),
     1 => format!("acc + (i * {} + {})", lit(kc), lit(cc)),
     2 => "acc * 3 + i".to_string(),
@@ -150,6 +151,22 @@ fn gen_loop(t: &mut Tape, cfg: &LoopCfg, k: usize, inner: Option<usize>) -> Loop
       let c1 = [1, -1, 2, 7, 1000, 2147483647, -2147483647][t.choose(7)];
       let c2 = INTERESTING[t.choose(INTERESTING.len())];
       format!("acc + (if i + {} {} {} {{ 1 }} else {{ 0 }})", lit(c1), ["<", "<=", ">", ">="][t.choose(4)], lit(c2))
+    }
+    // comparisons of `i + c1` / `i - c1` with a constant on either side, where no sum can wrap (the
+    // induction variable stays below 2^21 in magnitude): the pivot lies on the variable's path so that
+    // the comparison changes its value during the loop
+    15 => {
+      let c1 = t.int_in(-9, 9) as i32;
+      let pivot = start.wrapping_add(stride.wrapping_mul(t.int_in(0, 6) as i32));
+      let c2 = pivot.wrapping_add(c1).wrapping_add(t.int_in(-1, 1) as i32);
+      let sum = if c1 < 0 && t.bool(1, 2) { format!("i - {}", lit(-c1)) } else { format!("i + {}", lit(c1)) };
+      let cmp = ["<", "<=", ">", ">=", "==", "!="][t.weighted(&[3, 3, 3, 3, 1, 1])];
+      let cond = match t.choose(3) {
+        0 => format!("{sum} {cmp} {}", lit(c2)),
+        1 => format!("{} {cmp} {sum}", lit(c2)),
+        _ => format!("{{ let s = {sum}; {} {cmp} s }}", lit(c2)),
+      };
+      format!("acc + (if {cond} {{ 1 }} else {{ 0 }})")
     }
     _ => tick(t, "acc + 1".to_string(), if cfg.derived_iv { format!("i * {}", lit(kc)) } else { "acc + i".to_string() }),
   };
